@@ -32,6 +32,7 @@ type cdesc struct {
 	key  ikind
 	elem ikind
 	sub  *cdesc
+	pair *[2]ikind // elements are [2]int pairs of indices of these two spaces (EventPointers)
 }
 
 func compatible(a, b ikind) bool {
@@ -107,6 +108,8 @@ var ikContainers = map[string]cdesc{
 	"pkg/bondmachine.SimReport.ShowablesTypes":   {key: "SHO"},
 	"pkg/bondmachine.SimReport.ShowablesNames":   {key: "SHO"},
 	"pkg/bondmachine.SimReport.EventData":        {key: "EVD"},
+	"pkg/bondmachine.SimReport.EventGet":         {pair: &[2]ikind{"REP", "EVD"}},
+	"pkg/bondmachine.SimReport.EventShow":        {pair: &[2]ikind{"SHO", "EVD"}},
 	"pkg/bondmachine.SimReport.AbsGet":           {sub: &cdesc{key: "REP"}},
 	"pkg/bondmachine.SimReport.PerGet":           {sub: &cdesc{key: "REP"}},
 	"pkg/bondmachine.SimReport.AbsShow":          {sub: &cdesc{key: "SHO"}},
@@ -133,6 +136,7 @@ type ikEngine struct {
 	prop                   string
 	owner                  map[*types.Var]string // field -> "<rel>.<Struct>.<Field>"
 	mapTo                  map[string]int64      // constant names of Map_to values
+	indexOf                map[types.Object]int  // "index-of" helpers: func -> the parameter whose position it returns
 	nSinks, nKnown, nFuncs int
 }
 
@@ -155,6 +159,61 @@ func newIKEngine(r *core.Run, prog *core.Program, prop string) *ikEngine {
 			}
 		}
 	}
+	// index-of helpers: `func f(list []T, x T) int { for i, y := range list { if y == x { return i } }; return -1 }`
+	// return a position in whatever list they are given
+	e.indexOf = map[types.Object]int{}
+	for _, pk := range prog.Pkgs {
+		info := pk.TypesInfo
+		core.FuncDecls(pk, func(_ *ast.File, fd *ast.FuncDecl) {
+			if fd.Type.Results == nil || len(fd.Type.Results.List) != 1 {
+				return
+			}
+			if b, ok := info.TypeOf(fd.Type.Results.List[0].Type).Underlying().(*types.Basic); !ok || b.Info()&types.IsInteger == 0 {
+				return
+			}
+			pidx := map[types.Object]int{}
+			i := 0
+			for _, f := range fd.Type.Params.List {
+				for _, n := range f.Names {
+					pidx[info.ObjectOf(n)] = i
+					i++
+				}
+			}
+			found := -1
+			ast.Inspect(fd.Body, func(m ast.Node) bool {
+				rs, ok := m.(*ast.RangeStmt)
+				if !ok {
+					return true
+				}
+				lid, ok := ast.Unparen(rs.X).(*ast.Ident)
+				if !ok {
+					return true
+				}
+				k, ok := pidx[info.ObjectOf(lid)]
+				if !ok {
+					return true
+				}
+				kid, ok := rs.Key.(*ast.Ident)
+				if !ok {
+					return true
+				}
+				ast.Inspect(rs.Body, func(q ast.Node) bool {
+					if ret, ok := q.(*ast.ReturnStmt); ok && len(ret.Results) == 1 {
+						if rid, ok := ast.Unparen(ret.Results[0]).(*ast.Ident); ok && info.ObjectOf(rid) == info.ObjectOf(kid) {
+							found = k
+						}
+					}
+					return true
+				})
+				return true
+			})
+			if found >= 0 {
+				if o := info.Defs[fd.Name]; o != nil {
+					e.indexOf[o] = found
+				}
+			}
+		})
+	}
 	return e
 }
 
@@ -168,6 +227,7 @@ func (e *ikEngine) fieldDesc(f *types.Var) (cdesc, bool) {
 
 // funcState is the per-function inference state.
 type ikFunc struct {
+	mix     map[types.Object]map[ikind]bool // locals that received several kinds
 	e       *ikEngine
 	pk      *packages.Package
 	info    *types.Info
@@ -197,10 +257,52 @@ func (f *ikFunc) setKind(id *ast.Ident, k ikind) {
 			}
 			return
 		}
+		if f.mix == nil {
+			f.mix = map[types.Object]map[ikind]bool{}
+		}
+		if f.mix[o] == nil {
+			f.mix[o] = map[ikind]bool{}
+		}
+		if old != kMix {
+			f.mix[o][old] = true
+		}
+		f.mix[o][k] = true
 		f.env[o] = kMix
 		return
 	}
 	f.env[o] = k
+}
+
+// mixedAt: the expression is a local that received indices of several spaces (flow-insensitive join)
+// and is used where an index of space `want` is required. When one of its definitions is in the wanted
+// space and another is not, the use is wrong on the path of that other definition.
+func (f *ikFunc) mixedAt(e ast.Expr, want ikind, what string, pos token.Pos) {
+	id, ok := ast.Unparen(e).(*ast.Ident)
+	if !ok || want == kNone {
+		return
+	}
+	o := f.info.ObjectOf(id)
+	kinds := f.mix[o]
+	if len(kinds) < 2 {
+		return
+	}
+	hasWant := false
+	var others []string
+	for k := range kinds {
+		if compatible(k, want) {
+			hasWant = true
+		} else {
+			others = append(others, string(k))
+		}
+	}
+	if !hasWant || len(others) == 0 {
+		return
+	}
+	sort.Strings(others)
+	f.e.nSinks++
+	f.e.nKnown++
+	f.report(false, "INDEXKIND", "mixed:"+what, pos, "",
+		fmt.Sprintf("%s is used as an index of space %s here, but it is also assigned an index of space %s in this function (e.g. looked up in one list and appended to another): on that path the wrong element is addressed", id.Name, want, strings.Join(others, "/")))
 }
 
 func (f *ikFunc) setDesc(id *ast.Ident, d cdesc) {
@@ -320,6 +422,11 @@ func (f *ikFunc) kindOf(x ast.Expr) ikind {
 		}
 		if tv, ok := f.info.Types[v.Fun]; ok && tv.IsType() && len(v.Args) == 1 {
 			return f.kindOf(v.Args[0])
+		}
+		if k, ok := f.e.indexOf[core.CalleeOf(f.info, v)]; ok && k < len(v.Args) {
+			if d, ok := f.descOf(v.Args[k]); ok {
+				return d.key
+			}
 		}
 	case *ast.SelectorExpr:
 		fld := core.FieldOf(f.info, v)
@@ -464,6 +571,9 @@ func (f *ikFunc) check() {
 			}
 			f.e.nSinks++
 			got := f.kindOf(x.Index)
+			if got == kMix {
+				f.mixedAt(x.Index, d.key, types.ExprString(x.X)+"["+types.ExprString(x.Index)+"]", x.Pos())
+			}
 			if !known(got) {
 				return true
 			}
@@ -494,6 +604,25 @@ func (f *ikFunc) check() {
 				var want ikind
 				what := ""
 				if ie, ok := l.(*ast.IndexExpr); ok {
+					if d, ok := f.descOf(ie.X); ok && d.pair != nil {
+						if cl, ok := ast.Unparen(x.Rhs[i]).(*ast.CompositeLit); ok && len(cl.Elts) == 2 {
+							for pi, el := range cl.Elts {
+								got := f.kindOf(el)
+								if got == kMix {
+									f.mixedAt(el, d.pair[pi], fmt.Sprintf("pair:%s[%d]=%s", types.ExprString(ie.X), pi, types.ExprString(el)), el.Pos())
+								}
+								if !known(got) {
+									continue
+								}
+								f.e.nSinks++
+								f.e.nKnown++
+								f.report(compatible(got, d.pair[pi]), "INDEXKIND", fmt.Sprintf("pair:%s[%d]=%s", types.ExprString(ie.X), pi, types.ExprString(el)), el.Pos(),
+									fmt.Sprintf("component %d is %s as required", pi, got),
+									fmt.Sprintf("component %d of the pair stored into %s is %s, an index of space %s, where an index of space %s is kept: the event will read another element than the one the rule names", pi, types.ExprString(ie.X), types.ExprString(el), got, d.pair[pi]))
+							}
+						}
+						continue
+					}
 					if d, ok := f.descOf(ie.X); ok && d.elem != kNone {
 						want, what = d.elem, "store:"+types.ExprString(ie.X)+"[]="+types.ExprString(x.Rhs[i])
 					}
